@@ -167,7 +167,9 @@ func isPkgType(t types.Type, path string, names ...string) bool {
 func isMutex(t types.Type) bool { return isPkgType(t, "sync", "Mutex", "RWMutex") }
 
 // internally synchronised: never reported as plain accesses
-func isSyncObj(t types.Type) bool { return isPkgType(t, "sync") || isPkgType(t, "sync/atomic") }
+func isSyncObj(t types.Type) bool {
+	return isPkgType(t, "sync") || isPkgType(t, "sync/atomic") || isPkgType(t, "golang.org/x/sync/semaphore") || isPkgType(t, "golang.org/x/sync/errgroup")
+}
 
 func isPointer(t types.Type) bool {
 	if t == nil {
@@ -230,9 +232,15 @@ func trackedName(t types.Type) (string, bool) {
 	return "", false
 }
 
+var namePrefix string
+
 func posStr(p token.Pos) string {
 	q := fset.Position(p)
-	return fmt.Sprintf("%s:%d:%d", filepath.Base(q.Filename), q.Line, q.Column)
+	dir := ""
+	if namePrefix != "" {
+		dir = strings.TrimSuffix(namePrefix, ".") + "/"
+	}
+	return fmt.Sprintf("%s%s:%d:%d", dir, filepath.Base(q.Filename), q.Line, q.Column)
 }
 
 func main() {
@@ -241,6 +249,7 @@ func main() {
 	globals := flag.String("global", "Scheduler", "comma separated tracked types with one instance per process")
 	singles := flag.String("single", "Scheduler.Run", "comma separated functions whose go statements start singleton goroutines (if called from exactly one place)")
 	pkgPath := flag.String("pkg", "./server", "package to analyse")
+	prefix := flag.String("prefix", "", "prefix for function and location names and for positions (second package, e.g. `llm.`)")
 	waive := flag.String("waive", "", "semicolon separated `function|location` pairs rendered as the Coq list `waived` (recorded findings)")
 	flag.Parse()
 	if flag.NArg() < 1 {
@@ -254,6 +263,7 @@ func main() {
 	}
 	files := load(flag.Arg(0), *pkgPath)
 	findTracked()
+	namePrefix = *prefix
 	tab := analyse(files)
 	tab.TypeErrors = typeErrs
 	if len(tab.TypeErrors) > 20 {
